@@ -47,6 +47,14 @@ def check(ctx):
     prog = ctx.prog
     _claims(ctx)
     _timestamp(ctx)
+
+    # label classification the accepted set depends on (shared recognisers of C17 R-3/R-4)
+    from rules import c17
+    for _enum in ['iana::CwtClaimName', 'iana::Algorithm']:
+        c17.check_private_predicate(ctx, "R-1", _enum)
+    c17._classify(ctx, "<common::RegisteredLabelWithPrivate<T> as common::AsCborValue>::from_cbor_value", private=True)
+    c17._classify(ctx, "<common::RegisteredLabel<T> as common::AsCborValue>::from_cbor_value", private=False)
+
     for ty in ("context::PartyInfo", "context::SuppPubInfo"):
         check_struct(ctx, ty, KDF_STRUCTS[ty], rules=("R-kdf", "R-kdf", "R-kdf", "R-kdf"))
         check_array_encoder(ctx, ty, KDF_STRUCTS[ty], rules=("R-kdf-enc", "R-kdf-enc", "R-kdf-enc"))
@@ -132,6 +140,11 @@ def _timestamp(ctx):
     ok = ok and n_ok == 2 and tgt == "i64" and len(te) == 1 and te[0][1] is not None and not ({"Integer", "Float"} & set(te[0][1]))
     ctx.ob("R-1", "timestamp-decode", ok, "Timestamp: Integer -> checked i64 -> WholeSeconds; Float -> FractionalSeconds; every other kind is a type error",
            where=d.span, detail={"arms": {k: show(v)[:80] for k, v in got.items()}, "others": others})
+    timestamp_encode(ctx, "R-enc")
+
+
+def timestamp_encode(ctx, rule):
+    prog = ctx.prog
     e = prog.fn("<cwt::Timestamp as common::AsCborValue>::to_cbor_value")
     pe = Prov(e)
     oks = [o for o in outcomes(e, pe) if o["kind"] == "ok"]
@@ -149,8 +162,9 @@ def _timestamp(ctx):
     ok = (a is not None and a[0] == "aggr" and a[2] == "Integer" and is_call(a[3][0][1], "core::convert::Into::into")
           and a[3][0][1][2] == (("field", ("variant", ("param", 0), "WholeSeconds"), "0"),)
           and b == ("aggr", "ciborium::value::Value", "Float", (("0", ("field", ("variant", ("param", 0), "FractionalSeconds"), "0")),)))
-    ctx.ob("R-enc", "timestamp-encode", ok and len(enc) == 2 and n_arms == 2, "Timestamp encodes WholeSeconds as an integer of the same value and FractionalSeconds as a float",
+    ctx.ob(rule, "timestamp-encode", ok and len(enc) == 2 and n_arms == 2, "Timestamp encodes WholeSeconds as an integer of the same value and FractionalSeconds as a float",
            where=e.span, detail={k: show(v)[:80] for k, v in enc.items()})
+
 
 
 def _kdf_context(ctx):
@@ -228,6 +242,40 @@ def _kdf_context(ctx):
     ctx.ob("R-kdf", "tail:%s" % ty, ok,
            "every slot from index 4 on must be a byte string; they are collected by the reverse tail drain and reversed once, so wire order is preserved",
            where=d.span, detail=det, sample=det)
+    kdf_encoder(ctx, "R-kdf-enc")
+    cen = {}
+    from lib.census import census
+    for k, v in census(d, pd, vl).items():
+        cen[k] = len(v)
+    wantc = {"propagate:" + codec.TRY_ARRAY, "err:UnexpectedItem@len", "propagate:" + codec.TRY_BYTES,
+             "propagate:<context::SuppPubInfo as common::AsCborValue>::from_cbor_value", "propagate:<context::PartyInfo as common::AsCborValue>::from_cbor_value",
+             "propagate:<common::RegisteredLabelWithPrivate<T> as common::AsCborValue>::from_cbor_value"}
+    ctx.ob("R-kdf", "census:%s" % ty, set(cen) == wantc, "COSE_KDF_Context rejects only: not an array, fewer than 4 items, a bad slot 0-3, a non-bstr trailing slot",
+           where=d.span, detail={"found": cen})
+
+
+def _kdf_builder_fields(prog):
+    bfields = {}
+    for m in ("algorithm", "party_u_info", "party_v_info", "supp_pub_info", "add_supp_priv_info"):
+        f = prog.fn("context::CoseKdfContextBuilder::%s" % m)
+        effs = norm_effects(Prov(f))
+        if len(effs) == 1:
+            place = effs[0][1] if effs[0][0] == "assign" else effs[0][2]
+            if place[0] == "field":
+                bfields[m] = place[2]
+    return bfields
+
+
+KDF_WANT = [("algorithm", 0, "nested<common::RegisteredLabelWithPrivate<iana::Algorithm>>"), ("party_u_info", 1, "nested<context::PartyInfo>"),
+            ("party_v_info", 2, "nested<context::PartyInfo>"), ("supp_pub_info", 3, "nested<context::SuppPubInfo>")]
+
+
+def kdf_encoder(ctx, rule):
+    prog = ctx.prog
+    ty = "context::CoseKdfContext"
+    bfields = _kdf_builder_fields(prog)
+    want = KDF_WANT
+    tail_f = bfields.get("add_supp_priv_info")
     # encoder
     e = prog.fn(enc_key(ty))
     pe = Prov(e)
@@ -257,17 +305,8 @@ def _kdf_context(ctx):
                 okl = it == ("field", ("param", 0), tail_f)
             if not okl:
                 problems.append("the tail is not `Value::Bytes(x)` for each x of self.%s in order: %s" % (tail_f, show(t)[:80]))
-    ctx.ob("R-kdf-enc", "encoder:%s" % ty, not problems, "COSE_KDF_Context is emitted as [algorithm, PartyU, PartyV, SuppPub, private byte strings in order...]",
+    ctx.ob(rule, "encoder:%s" % ty, not problems, "COSE_KDF_Context is emitted as [algorithm, PartyU, PartyV, SuppPub, private byte strings in order...]",
            where=e.span, detail={"problems": problems})
-    cen = {}
-    from lib.census import census
-    for k, v in census(d, pd, vl).items():
-        cen[k] = len(v)
-    wantc = {"propagate:" + codec.TRY_ARRAY, "err:UnexpectedItem@len", "propagate:" + codec.TRY_BYTES,
-             "propagate:<context::SuppPubInfo as common::AsCborValue>::from_cbor_value", "propagate:<context::PartyInfo as common::AsCborValue>::from_cbor_value",
-             "propagate:<common::RegisteredLabelWithPrivate<T> as common::AsCborValue>::from_cbor_value"}
-    ctx.ob("R-kdf", "census:%s" % ty, set(cen) == wantc, "COSE_KDF_Context rejects only: not an array, fewer than 4 items, a bad slot 0-3, a non-bstr trailing slot",
-           where=d.span, detail={"found": cen})
 
 
 def _borrows_local(pv, op, bb, l):
